@@ -330,7 +330,11 @@ class Reader:
         self.consume("=")
         if self.peek == "ID":
             a = self.parse_id()
-            if self.peek in ir.Binop.ops:
+            if self.peek in ir.Binop.ops or (
+                # rol and ror are spelled as words:
+                (self.at_keyword("rol") or self.at_keyword("ror"))
+                and a not in ("phi", "alloc", "load", "cast", "call", "literal")
+            ):
                 # Go for binop
                 op = self.consume(self.peek)[1]
                 b = self.parse_id()
